@@ -36,6 +36,9 @@ type WalkCase struct {
 	// Unserialisable: the state also holds a value JSON cannot express
 	// (+Inf), under this key (C06 only)
 	Unserialisable string `json:"unserialisable,omitempty"`
+	// IntNumbers: the whole numbers of the state and of the messages are
+	// Go integers (a Go host built them), not the float64 of JSON (C06 only)
+	IntNumbers bool `json:"intNumbers,omitempty"`
 }
 
 func genWalkWith(t *rapid.T, o sm.SpecOpts) WalkCase {
@@ -351,6 +354,7 @@ func genHold(t *rapid.T) WalkCase {
 		// and something structured that a script may write into
 		c.Bs[rapid.SampledFrom([]string{"y", "l", "cfg!"}).Draw(t, "nestkey")] = map[string]interface{}{"a": 1.0, "deep": map[string]interface{}{"b": []interface{}{1.0}}}
 	}
+	c.IntNumbers = rapid.IntRange(0, 4).Draw(t, "intNumbers") == 0
 	return c
 }
 
@@ -433,6 +437,14 @@ func checkHold(c WalkCase) (v ev.Verdict) {
 		v.Class("unserialisable-binding")
 	}
 	msgs := copyMsgs(c.Messages)
+	if c.IntNumbers {
+		n := 0
+		st.Bs = match.Bindings(jsongen.Intify(map[string]interface{}(st.Bs), &n).(map[string]interface{}))
+		msgs = jsongen.Intify(msgs, &n).([]interface{})
+		if n > 0 {
+			v.Class("go-integers")
+		}
+	}
 	// step properties, with one map reachable by several paths (a host
 	// that puts the same configuration under two names)
 	shared := map[string]interface{}{"k": 1.0, "arr": []interface{}{1.0}}
